@@ -81,7 +81,7 @@ pub fn dump_json(dump: &[aquatic_common::verif::TorrentDump]) -> Value {
                     .unwrap_or(0);
                 let mut e = vec![key, json!(p.seeder), json!(p.valid_until), json!(pid)];
                 if let Some((consumer, conn)) = p.owner {
-                    e.push(json!([consumer, conn]));
+                    e.push(json!([consumer, conn & 0xffff_ffff]));
                     e.push(json!(p
                         .expecting_answers
                         .iter()
